@@ -23,10 +23,13 @@ with the emitted line number so that verifier diagnostics can be mapped back to 
 
 Rewrites applied to copied repository text (each is logged):
   * statements that are tracing/log macro calls (trace!/debug!/info!/warn!/error!) -> blank
-  * attributes #[inline..], #[allow..], #[tracing::instrument..], #[serde..], #[cfg_attr..] -> blank
+  * attributes #[inline..], #[allow..], #[tracing::instrument..], #[serde..], #[cfg_attr..], #[repr..], thiserror's #[error..] / #[from] -> blank
   * derive lists filtered to the entries Verus supports (Clone, Copy, PartialEq, Eq) unless derive= given
   * `pub(crate)` / `pub(super)` -> `pub`;  private struct fields and private fns -> `pub`
   * `-> T` -> `-> (ret: T)` for functions given ret=
+  * only for functions given `unfold_map`: `let x = RECV.map(|p| { BODY });` ->
+    `let x = match RECV { Some(p) => Some({ BODY }), None => None };` — the definition of Option::map, written out
+    because Verus rejects closures that capture `&mut self`.  BODY is copied untouched; RECV must not contain `;`.
 Nothing else in executable code is changed; line structure is preserved so that every
 generated line maps to one repository line.
 """
@@ -45,9 +48,9 @@ class WeaveError(Exception):
 
 
 LOG_RE = re.compile(r'\b(?:tracing::|log::)?(trace|debug|info|warn|error)!\s*\(')
-DROP_ATTR_RE = re.compile(r'^[ \t]*#\[(inline|allow|tracing::instrument|instrument|serde|cfg_attr|must_use|doc)\b[^\n]*\]?[ \t]*$', re.M)
+DROP_ATTR_RE = re.compile(r'^[ \t]*#\[(inline|allow|tracing::instrument|instrument|serde|cfg_attr|must_use|doc|error|repr)\b[^\n]*\]?[ \t]*$', re.M)
 KEEP_DERIVES = ('Clone', 'Copy', 'PartialEq', 'Eq')
-LABEL_RE = re.compile(r'^\s*\[([PA])\s+([A-Z0-9,]+)\s+([A-Za-z0-9_.:@-]+)\]\s*')
+LABEL_RE = re.compile(r'^\s*\[([PA])\s+([A-Z0-9,]+)\s+([A-Za-z0-9_.:@#-]+)\]\s*')
 
 
 def blank_keep_newlines(s):
@@ -100,6 +103,7 @@ def rewrite_item(text, relpath, base_line, rw, derive=None, keepattrs=False, wid
             rw.add('drop-attr', relpath, base_line + text.count('\n', 0, mm.start()), mm.group(0))
             return blank_keep_newlines(mm.group(0))
         text = DROP_ATTR_RE.sub(dropattr, text)
+        text = re.sub(r'#\[(from|source)\]', dropattr, text)    # thiserror field markers (derive is filtered out too)
     # 3. derives
     def fix_derive(mm):
         items = [x.strip() for x in mm.group(1).split(',') if x.strip()]
@@ -118,6 +122,33 @@ def rewrite_item(text, relpath, base_line, rw, derive=None, keepattrs=False, wid
             return 'pub'
         text = re.sub(r'\bpub\s*\(\s*(crate|super|self)\s*\)', vis, text)
     return text
+
+
+MAP_RE = re.compile(r'=\s*([^;=]*?)\s*\.map\(\s*\|\s*([A-Za-z_][A-Za-z0-9_]*)\s*\|\s*\{')
+
+
+def unfold_option_map(body, relpath, base_line, rw):
+    """`= RECV.map(|p| { BODY });` -> `= match RECV { Some(p) => Some({ BODY }), None => None };` (line-preserving)"""
+    while True:
+        mb = mask(body)
+        m = MAP_RE.search(mb)
+        if not m:
+            return body
+        open_brace = m.end() - 1
+        close_brace = match_close(mb, open_brace)
+        k = close_brace + 1
+        while k < len(mb) and mb[k] in ' \t\n':
+            k += 1
+        if k >= len(mb) or mb[k] != ')':
+            raise WeaveError('unfold_map: closure body is not the whole argument of map() in %s line %d' % (relpath, base_line + body.count('\n', 0, m.start())))
+        recv = body[m.start(1):m.end(1)]
+        ident = m.group(2)
+        head = '= match %s { Some(%s) => Some({' % (recv, ident)
+        if '\n' in body[m.start():m.end()] and body[m.start():m.end()].count('\n') != head.count('\n'):
+            head = head + '\n' * (body[m.start():m.end()].count('\n') - head.count('\n'))
+        tail = '}), None => None }' + '\n' * body[close_brace:k + 1].count('\n')
+        rw.add('unfold-option-map', relpath, base_line + body.count('\n', 0, m.start()), body[m.start():m.end()], head)
+        body = body[:m.start()] + head + body[m.end():close_brace] + tail + body[k + 1:]
 
 
 def widen_struct_fields(text, relpath, base_line, rw):
@@ -355,7 +386,7 @@ class Weaver:
         m = LABEL_RE.match(text)
         if not m:
             return text, None
-        ob = dict(cls=m.group(1), props=m.group(2).split(','), name='%s#%s' % (fn, m.group(3)), fn=fn, section=section, text=text[m.end():].strip(), tmpl_line=tline)
+        ob = dict(cls=m.group(1), props=m.group(2).split(','), name=(m.group(3) if '#' in m.group(3) else '%s#%s' % (fn, m.group(3))), fn=fn, section=section, text=text[m.end():].strip(), tmpl_line=tline)
         return text[:m.start()] + text[m.end():], ob
 
     def emit_spec(self, payload, fn, section):
@@ -389,6 +420,8 @@ class Weaver:
         if 'ret' in opts:
             sig = name_result(sig, opts['ret'], rel, line_of(src.text, it['kw']), self.rw)
         body = rewrite_item(body, rel, body_line, self.rw, widen=False)
+        if 'unfold_map' in opts:
+            body = unfold_option_map(body, rel, body_line, self.rw)
         mbody = mask(body)
         # insertion points into body: offset -> payload
         ins = []
